@@ -91,6 +91,10 @@ pub fn eval(c: &Case, obs: &mut Obs) -> Result<(), String> {
             return Ok(());
         }
     };
+    judge(c, want, &got)
+}
+
+fn judge(c: &Case, want: MbiLoad, got: &Transcript) -> Result<(), String> {
     let mut exp = transcript::Expected::new();
     if want == MbiLoad::Ok {
         exp.is("load", Val::Txt("Ok".into()));
@@ -101,11 +105,67 @@ pub fn eval(c: &Case, obs: &mut Obs) -> Result<(), String> {
     } else {
         exp.is("load", Val::Err(want.text().into()));
     }
-    let d = exp.diff(&got, &|_| true);
+    let d = exp.diff(got, &|_| true);
     if d.is_empty() {
         Ok(())
     } else {
         Err(format!("total size word {}: {}", c.ts, d.join("; ")))
+    }
+}
+
+// --- the same decisions wherever the structure lives -----------------------------
+
+fn addr_cases() -> Vec<Case> {
+    let end = Hex(mb2_model::encode::END_TAG.to_vec());
+    let bad = Hex(vec![0, 0, 0, 0, 9, 0, 0, 0]);
+    let mut v = Vec::new();
+    for (i, (ts, last8)) in [(16u32, &end), (24, &end), (64, &end), (24, &bad), (8, &end), (20, &end), (0, &end)].into_iter().enumerate() {
+        v.push(Case { null: false, ts, reserved: if i % 2 == 0 { 0 } else { 0xFFFF_FFFF }, last8: last8.clone(), key: 0xADD0 + i as u64, place: Place::End, decoy: None });
+    }
+    v
+}
+
+fn run_addr(ctx: &Ctx, rep: &mut SubReport) {
+    if ctx.worker != 0 {
+        return;
+    }
+    let mut granted = 0;
+    for addr in sbx::SPECIAL_ADDRS {
+        for c in addr_cases() {
+            let bytes = region(&c);
+            let want = predict_mbi_load(&bytes);
+            match sbx::at_address(addr, &bytes, |p, _| load_transcript(p)) {
+                None => continue,
+                Some(Boxed::Inconclusive(w)) => rep.inconclusive.push(w),
+                Some(Boxed::Crash(s)) => {
+                    rep.violations.push(Violation { sub: "special-addresses".into(), profile: profile_name().into(), message: format!("boot information at address {addr:#x}: load crashed the process: {s}"), case: json!({"addr": addr, "case": c}) });
+                    return;
+                }
+                Some(Boxed::Done(t)) => {
+                    granted += 1;
+                    rep.evaluations += 1;
+                    rep.nontrivial.insert(addr as u64 ^ fnv(&bytes));
+                    if let Err(m) = judge(&c, want, &t) {
+                        rep.violations.push(Violation { sub: "special-addresses".into(), profile: profile_name().into(), message: format!("boot information at address {addr:#x}: {m}"), case: json!({"addr": addr, "case": c}) });
+                        return;
+                    }
+                }
+            }
+        }
+    }
+    rep.notes.push(format!("{granted} loads at special addresses (of {} address x case combinations; the rest could not be mapped)", sbx::SPECIAL_ADDRS.len() * addr_cases().len()));
+    rep.samples.push(json!({"addr": "0x100000000", "expect": "same decision as anywhere else"}));
+}
+
+fn replay_addr(v: &serde_json::Value) -> Result<(), String> {
+    let addr = v["addr"].as_u64().unwrap_or(0) as usize;
+    let c: Case = serde_json::from_value(v["case"].clone()).map_err(|e| e.to_string())?;
+    let bytes = region(&c);
+    match sbx::at_address(addr, &bytes, |p, _| load_transcript(p)) {
+        None => Err("INCONCLUSIVE: the address could not be mapped".into()),
+        Some(Boxed::Inconclusive(w)) => Err(format!("INCONCLUSIVE: {w}")),
+        Some(Boxed::Crash(s)) => Err(format!("crashed: {s}")),
+        Some(Boxed::Done(t)) => judge(&c, predict_mbi_load(&bytes), &t),
     }
 }
 
@@ -314,7 +374,14 @@ fn strategy_chain(_: &Ctx) -> BoxedStrategy<ChainCase> {
 }
 
 pub fn subs() -> Vec<Box<dyn Sub>> {
-    vec![Box::new(PropSub::<ChainCase> {
+    vec![
+    Box::new(LoopSub {
+        name: "special-addresses",
+        profiles: Profiles::Both,
+        rule: "BootInformation::load of 7 fixed regions (valid with total sizes 16/24/64, bad end tag, total size 8 / 20 / 0) copied to addresses with a special bit pattern: multiples of 4 GiB, straddling the 2 GiB and 4 GiB marks, 1 TiB, the first mappable page, a high user-space address (mmap MAP_FIXED_NOREPLACE; addresses the kernel does not grant are skipped and counted). Oracle: the same decision table as `load`, start/end/total relative to the address. Non-trivial = every granted load",
+        run: run_addr,
+        replay: replay_addr,
+    }),Box::new(PropSub::<ChainCase> {
         name: "load-chains",
         rule: "regions whose interior is a tag chain: every region of C03's exhaustive small-walk enumeration (incl. a last tag that reaches exactly to the end and so contains the end-tag bytes) and generated adversarial regions (tampered sizes, missing / invalid end tags, tampered total size). Oracle: the statement's decision table, which looks at the header and the last 8 bytes only. Non-trivial = load must fail, or the end-tag bytes lie inside another tag; distinct by region hash",
         profiles: Profiles::Both,
